@@ -845,3 +845,55 @@ func minifiedOnlyFact(m map[string]string, engineMask int, a, b []reqRec) map[st
 	}
 	return withFacts(m, "confined_to_minified_operation_texts", fmt.Sprint(sameStrings(strip(a), strip(b))))
 }
+
+// duplicateFetchesUnderDedupOff: planned with fetch de-duplication off (nothing else), does the
+// operation have two fetches with the same subgraph, the same operation text and the same response
+// path? (Those are what de-duplication would merge; left apart they write the same positions.)
+func duplicateFetchesUnderDedupOff(cfg *plan.Configuration, superSDL, norm string) string {
+	schema, err := graphql.NewSchemaFromString(superSDL)
+	if err != nil || norm == "" {
+		return "unknown"
+	}
+	pl, err := newPlanner(plannerConfig(cfg, 1))
+	if err != nil {
+		return "unknown"
+	}
+	result := "unknown"
+	func() {
+		defer func() { _ = recover() }()
+		doc, rep := astparser.ParseGraphqlDocumentString(norm)
+		if rep.HasErrors() {
+			return
+		}
+		var report operationreport.Report
+		p := pl.Plan(&doc, schema.Document(), "", &report, plan.IncludeQueryPlanInResponse())
+		if report.HasErrors() {
+			return
+		}
+		postprocess.NewProcessor(postprocessOptions(1)...).Process(p)
+		sp, ok := p.(*plan.SynchronousResponsePlan)
+		if !ok || sp.Response == nil {
+			return
+		}
+		seen := map[string]bool{}
+		result = "false"
+		var walk func(n *resolve.FetchTreeQueryPlanNode)
+		walk = func(n *resolve.FetchTreeQueryPlanNode) {
+			if n == nil {
+				return
+			}
+			if n.Fetch != nil {
+				k := n.Fetch.SubgraphName + "\x00" + n.Fetch.Path + "\x00" + n.Fetch.Query
+				if seen[k] {
+					result = "true"
+				}
+				seen[k] = true
+			}
+			for _, ch := range n.Children {
+				walk(ch)
+			}
+		}
+		walk(sp.Response.Fetches.QueryPlan())
+	}()
+	return result
+}
